@@ -40,10 +40,12 @@ Theorem C15_perigee_rate : forall t : R, -60 <= t <= 60 ->
   Rabs (perigee_poly t - (83.3532465 + 4069.0137287 * t)) <= 40.6.
 Proof. exact perigee_rate. Qed.
 
-(* illuminated fraction: k = (1 + cos i)/2 for an angle i, hence in [0,1] *)
+(* illuminated fraction: k = (1 + cos i)/2 with the explicit phase angle (C15_illum.illum_i, Meeus 48.4)
+   i = 180 - D - 6.289 sin M' + 2.1 sin M - 1.274 sin(2D - M') - 0.658 sin 2D - 0.214 sin 2M' - 0.11 sin D,
+   D, M, M' the code's polynomials in T = (JDE - 2451545)/36525; hence k in [0,1] *)
 Theorem C15_illuminated_fraction : forall j : R,
-  exists i : R, Moon_illuminated_fraction_disk Rops (epo j) = VFloat ((1 + cos (d2r i)) / 2)
-             /\ 0 <= (1 + cos (d2r i)) / 2 <= 1.
+  Moon_illuminated_fraction_disk Rops (epo j) = VFloat ((1 + cos (d2r (illum_i (Tl j)))) / 2)
+  /\ 0 <= (1 + cos (d2r (illum_i (Tl j)))) / 2 <= 1.
 Proof. exact (fun j => illuminated_closed j JDE2000_val). Qed.
 
 (* finder spec: the index round((year - y0) * rate) is non-decreasing in the fractional year and onto;
@@ -58,6 +60,8 @@ Proof.
   - intro n. apply index_onto; assumption.
   - exact Rround_nd_0.
 Qed.
+(* [spec only, NOT tied to the code by proof]: needs |c k| <= C for every integer k; the statement tied to the
+   generated finders (corrections bounded on the window -41 <= T <= 21) is C15_finder_timing *)
 Theorem C15_finder_spacing : forall (B C D : R) (r mean c : Z -> R),
   (forall k, r k = mean k + c k) -> (forall k, Rabs (c k) <= C) ->
   (forall k, Rabs (mean (k + 1)%Z - mean k - B) <= D) -> 2 * C + D < B ->
